@@ -1634,16 +1634,34 @@ class Engine:
             if isinstance(o, (Native, Cls)) or o is None:
                 return o
             self.throw("TypeError", f"'{type(o).__name__}' object is not subscriptable")
-        if isinstance(idx, SymInt) and kind in ("bytes", "list", "tuple") and 0 < len(seq) <= 4096 \
-                and all(isinstance(x, int) and not isinstance(x, bool) for x in seq):
+        if isinstance(idx, SymInt) and kind in ("bytes", "list", "tuple") and 0 < len(seq) <= 4096:
             e0 = z3.simplify(idx.e)
             if not z3.is_int_value(e0):
-                return self.table_lookup(seq, e0)
+                if all(isinstance(x, int) and not isinstance(x, bool) for x in seq):
+                    return self.table_lookup(seq, e0)
+                if all(intish(x) for x in seq) or all(boolish(x) for x in seq):
+                    return self.table_select(seq, e0)
         i = self.index_of(idx, len(seq))
         if isinstance(o, str):
             return o[i]
         r = seq[i]
         return Str([r]) if kind == "str" else r
+
+    def table_select(self, table, e):
+        """table[e] for a table of (possibly symbolic) scalars of one kind and a symbolic index"""
+        n = len(table)
+        self.throw_if(mk_bool(z3.Or(e < -n, e >= n)), "IndexError", "index out of range")
+        pos = z3.If(e < 0, e + n, e)
+        bools = all(boolish(x) for x in table)
+        leaf = (lambda x: zb(x)) if bools else (lambda x: zi(x))
+
+        def build(lo, hi):
+            if hi - lo == 1:
+                return leaf(table[lo])
+            mid = (lo + hi) // 2
+            return z3.If(pos < mid, build(lo, mid), build(mid, hi))
+        r = build(0, n)
+        return mk_bool(r) if bools else mk_int(r)
 
     def table_lookup(self, table, e):
         """table[e] for a concrete integer table and a symbolic index: bounds check + balanced ite tree
